@@ -19,7 +19,7 @@ import (
 	"strings"
 )
 
-var clockSubst = map[string]bool{"time.Now": true, "time.Until": true, "time.Since": true, "time.NewTicker": true}
+var clockSubst = map[string]bool{"time.Now": true, "time.Until": true, "time.Since": true, "time.NewTicker": true, "time.AfterFunc": true, "time.NewTimer": true}
 var schedSubst = map[string]bool{
 	"atomic.LoadPointer": true, "atomic.StorePointer": true, "atomic.LoadUint64": true, "atomic.StoreUint64": true,
 	"atomic.LoadInt64": true, "atomic.StoreInt64": true, "atomic.AddInt64": true, "atomic.CompareAndSwapUint64": true,
